@@ -77,6 +77,9 @@ def check_case(ctx, case):
     want = ref_filter(events, stmts)
     plan = case["plan"]
     in_place = case["in_place"]
+    if case.get("np_bool"):
+        in_place = numpy.bool_(in_place)        # the flag as a numpy boolean (what `mask.any()` or a record field hands out)
+        ctx.count("in_place_flag_as_numpy_bool")
 
     def fresh():
         return CSEPCatalog(data=list(events), catalog_id=3, name="c")
@@ -231,7 +234,7 @@ def check_spatial(ctx, case):
         ctx.unexpected(ob, "build_other_regions")
         return
     other_far, other_big = ob.value
-    for in_place in (True, False):
+    for in_place in ((numpy.True_, numpy.False_) if case.get("np_bool") else (True, False)):
         for via in ("arg", "bound", "arg_over_far", "arg_over_big"):
             bound_to = {"arg": None, "bound": region, "arg_over_far": other_far, "arg_over_big": other_big}[via]
             src = CSEPCatalog(data=list(events), region=bound_to)
@@ -311,6 +314,8 @@ def cases(draw, max_events=40):
     case = {"k": "filter", "events": ev, "stmts": stmts, "plan": plan, "in_place": draw(st.booleans())}
     if draw(st.integers(0, 3)) == 0:
         case["positional"] = True
+    if draw(st.integers(0, 3)) == 0:
+        case["np_bool"] = True
     if n and plan not in ("load_catalog",) and draw(st.integers(0, 3)) == 0:
         case["nan_depth"] = sorted(set(draw(st.lists(st.integers(0, n - 1), min_size=1, max_size=3))))
     if plan in ("chained", "permuted", "stale_then_empty", "ctor_filters_then_filter"):
@@ -353,7 +358,7 @@ def spatial_cases(draw):
     for p in list(pts[:3]):
         if draw(st.booleans()):
             pts.append([p[0] + (360.0 if p[0] < 0 or draw(st.booleans()) else -360.0), p[1]])
-    return {"k": "spatial", "region": rc, "points": pts}
+    return {"k": "spatial", "region": rc, "points": pts, **({"np_bool": True} if draw(st.integers(0, 2)) == 0 else {})}
 
 
 def run(ctx):
